@@ -1307,7 +1307,20 @@ class Gen:
                 self.use("catch:all")
                 catches.append((None, self.block(fty[2], cs, min(d, 1))))
         body_scope = Scope(fscope)
-        items = self.items(body_scope, d, r.range(0, 3))
+        pre_items, post_items = [], []
+        named = [p for p in params if p["dims"] and not (rec and p is params[0])]
+        if named and self.ch(0.35):
+            # shadow the NAME of an array / range / slice parameter inside the body, then use its extent / bound names:
+            # they refer to the parameter's cell, not to what the parameter's name resolves to
+            p = r.choice(named)
+            ty2 = r.choice([INT, FLOAT, STRING, ENUM, BOOL])
+            body_scope.add(p["name"], ty2, "C")
+            pre_items.append(["let", p["name"], self.leaf(ty2, fscope)[0] if ty2 != ENUM else ["enumval", "E", "ec"]])
+            for dn in p["dims"][:2]:
+                post_items.append(["e", ["builtin", "print", [["var", dn]]]])
+            post_items.append(["e", ["builtin", "print", [["index", ["arrlit", [2], INT, [["var", p["dims"][0]], ["int", 1]]], [["int", 0]]]]]])
+            self.use("param:name-shadowed-extent-used")
+        items = pre_items + post_items + self.items(body_scope, d, r.range(0, 3))
         if rec:
             self.use("recursion")
             n = params[0]["name"]
